@@ -631,6 +631,15 @@ where
             c.wr.bytes(&a.to_bits().encode());
             c.wr.raw(",\"wrapenc\":");
             c.wr.bytes(&sfv::sf::Wrapping(a).0.encode());
+            // nested in a tuple and appended to an existing buffer (the encode_to path)
+            c.wr.raw(",\"nested\":");
+            c.wr.bytes(&(7u8, &a, 9u8).encode());
+            let mut buf = vec![0xEEu8];
+            a.encode_to(&mut buf);
+            c.wr.raw(",\"appended\":");
+            c.wr.bytes(&buf);
+            c.wr.raw(",\"optenc\":");
+            c.wr.bytes(&Some(a).encode());
             c.wr.raw(",\"size\":");
             c.wr.raw(&format!("{}", a.encoded_size()));
             c.wr.raw(",\"maxlen\":");
@@ -651,6 +660,14 @@ where
             };
             c.wr.raw(",\"dec\":");
             c.wr.out1(&dec(&enc));
+            // decoding the value out of a tuple encoding of the underlying integer
+            c.wr.raw(",\"decnested\":");
+            let tup = (7u8, a.to_bits(), 9u8).encode();
+            c.wr.out1(&match cat(|| <(u8, A, u8)>::decode(&mut &tup[..])) {
+                Ok(Ok((x, v, y))) if x == 7 && y == 9 => Out::V(Num::u(v.raw())),
+                Ok(_) => Out::None,
+                Err(_) => Out::Panic,
+            });
             c.wr.raw(",\"decshort\":");
             let shorts: Vec<Out> = (0..nb).map(|k| dec(&enc[..k.min(enc.len())])).collect();
             c.wr.outs(&shorts);
